@@ -5,10 +5,10 @@ open Gallia Gallia.Proto Gallia.Lifecycle
 
 /-
   line protocol
-    run  <quirks:3 bits> <kind> <lock art db hooks:4 bits> <pre> <setup> <main> <tdPre> <tdPost> <post>   -> final
-    spec <kind> <4 bits> <pre> <setup> <main> <tdPre> <tdPost> <post> | <final>                           -> ok | clause,clause
+    run  <quirks:4 bits> <kind> <lock art db hooks:4 bits> <pre> <dbopen> <setup> <main> <tdPre> <tdPost> <post>   -> final
+    spec <kind> <4 bits> <pre> <dbopen> <setup> <main> <tdPre> <tdPost> <post> | <final>                           -> ok | clause,clause
     code <kind> <setup> <main> <tdPre> <tdPost>                                                          -> expected exit code
-  pre/post : ok | fail          ev : ok | exit:<n> | exitx | conn | uds | other | kbd | cancel
+  pre/dbopen/post : ok | fail          ev : ok | exit:<n> | exitx | conn | uds | other | kbd | cancel
   final    : exit=.. meta=.. db=.. dbclosed=.. logclosed=.. lock=.. pre=.. post=.. reports=.. tclosed=.. trace=..
 -/
 
@@ -47,12 +47,13 @@ def parseCfg (k bits : String) : Option Cfg := do
 
 def parseQuirks (bits : String) : Option Quirks :=
   match bits.toList with
-  | [a, b, c] => do some { hookUnbound := ← bit a, scannerDisconnect := ← bit b, cancelUnmapped := ← bit c }
+  | [a, b, c, d] => do
+    some { hookUnbound := ← bit a, scannerDisconnect := ← bit b, cancelUnmapped := ← bit c, dbOpenUnguarded := ← bit d }
   | _ => none
 
 def parseScript : List String → Option Script
-  | [p, a, b, c, d, q] => do
-    some { preFails := ← parseFail p, setup := ← parseEv a, main := ← parseEv b, tdPre := ← parseEv c,
+  | [p, o, a, b, c, d, q] => do
+    some { preFails := ← parseFail p, dbFails := ← parseFail o, setup := ← parseEv a, main := ← parseEv b, tdPre := ← parseEv c,
            tdPost := ← parseEv d, postFails := ← parseFail q }
   | _ => none
 
@@ -75,6 +76,7 @@ def showFinal (f : Final) : String :=
     | .ret n => s!"ret:{n}"
     | .escCancelled => "esc:cancelled"
     | .escHook => "esc:hook"
+    | .escDb => "esc:db"
   let mf := match f.metaFile with
     | none => "none"
     | some m => s!"{m.exit}:{m.start}:{m.stop}"
@@ -115,6 +117,7 @@ def parseFinal : List String → Option Final
       | ["ret", n] => n.toNat?.map Outcome.ret
       | ["esc", "cancelled"] => some .escCancelled
       | ["esc", "hook"] => some .escHook
+      | ["esc", "db"] => some .escDb
       | _ => none
     let m ← kv "meta" m
     let metaFile ← match m.splitOn ":" with
@@ -152,14 +155,14 @@ def step (line : String) : String :=
     match parseQuirks q, parseCfg k bits, parseScript script with
     | some q, some c, some s => showFinal (entryPointQ q c s)
     | _, _, _ => "bad-op"
-  | "spec" :: k :: bits :: p :: a :: b :: c :: d :: q :: "|" :: fin =>
-    match parseCfg k bits, parseScript [p, a, b, c, d, q], parseFinal fin with
+  | "spec" :: k :: bits :: p :: o :: a :: b :: c :: d :: q :: "|" :: fin =>
+    match parseCfg k bits, parseScript [p, o, a, b, c, d, q], parseFinal fin with
     | some cfg, some s, some f =>
       let v := Spec.violations cfg s f
       if v.isEmpty then "ok" else ",".intercalate v
     | _, _, _ => "bad-op"
   | ["code", k, a, b, c, d] =>
-    match parseKind k, parseScript ["ok", a, b, c, d, "ok"] with
+    match parseKind k, parseScript ["ok", "ok", a, b, c, d, "ok"] with
     | some kind, some s => toString (Spec.exitOf kind (Spec.raised s))
     | _, _ => "bad-op"
   | _ => "bad-op"
